@@ -481,6 +481,31 @@ CONFIG = [
                 'self.get_source_id': 'get_source_id'},
       'cells': {'self._entries': 'entries',
                 'self._search_tags': 'search_tags'}}),
+    ('fs_add', 'searchkit/search.py', 'FileSearcher.add',
+     {'locks': {},
+      'calls': {'self.constraints_manager.global_restrictions.add':
+                'restrict', 'self.catalog.register': 'register'}}),
+    ('resolve_from_tag', 'searchkit/search.py',
+     'SearchCatalog.resolve_from_tag',
+     {'locks': {},
+      'calls': {'self.resolve_from_id': 'resolve_from_id',
+                'searches.append': 'append'},
+      'cells': {'self._search_tags': 'search_tags'}}),
+    ('resolve_from_id', 'searchkit/search.py',
+     'SearchCatalog.resolve_from_id',
+     {'locks': {},
+      'cells': {'self._simple_searches': 'simple',
+                'self._sequence_searches': 'sequence'}}),
+    ('source_id_to_path', 'searchkit/search.py',
+     'SearchCatalog.source_id_to_path',
+     {'locks': {}, 'cells': {'self._source_ids': 'source_ids'}}),
+    ('collection_init', 'searchkit/search.py',
+     'SearchResultsCollection.__init__',
+     {'locks': {}, 'calls': {'self.reset': 'reset'},
+      'cells': {'self._results_by_path': 'by_path'}}),
+    ('collection_reset', 'searchkit/search.py',
+     'SearchResultsCollection.reset',
+     {'locks': {}, 'cells': {'self._results_by_path': 'by_path'}}),
 ]
 
 ARG0 = {'Acq', 'Rel', 'Rd', 'Wr', 'Call', 'Handler', 'RaiseE'}
